@@ -1,7 +1,7 @@
 (* C06 - Symbolic arithmetic on models is pointwise arithmetic on energies.
    Only statements; every proof is `exact <lemma>`. *)
 From Coq Require Import List ZArith QArith Qcanon Bool Arith.
-From Dimod Require Import Base.Util Model.Poly Model.Sym Model.SymStore Proofs.PolyFacts Proofs.SymFacts Proofs.SymStoreFacts Model.OpsLang Gen.Gen_Ops Gen.Gen_AddVar Model.Ops Proofs.OpsFacts Proofs.AddVarFacts Proofs.OpsUnaryFacts.
+From Dimod Require Import Base.Util Model.Poly Model.Sym Model.SymStore Proofs.PolyFacts Proofs.SymFacts Proofs.SymStoreFacts Model.OpsLang Gen.Gen_Ops Gen.Gen_AddVar Model.Ops Proofs.OpsFacts Proofs.AddVarFacts Proofs.OpsUnaryFacts Proofs.OpsDivFacts Proofs.OpsMulFacts.
 Import ListNotations.
 Open Scope Qc_scope.
 
@@ -225,6 +225,51 @@ Print Assumptions C06_gen_neg_correct.
 Theorem C06_gen_pos_correct : forall a, wfv a -> requiv (g_pos a) (v_pos a).
 Proof. exact g_pos_correct. Qed.
 Print Assumptions C06_gen_pos_correct.
+
+(* the translated __truediv__ / __itruediv__ (`self * (1 / other)`, `self *= (1 / other)`) are the specified
+   division for every pair of operand kinds: by a non-zero number it scales by the inverse, by zero it is a
+   ZeroDivisionError, by a model or a view (or of a view) a TypeError *)
+Theorem C06_gen_div_correct : forall a b, wfv a -> wfv b -> requiv (g_op ODiv a b) (v_div a b).
+Proof. exact g_div_correct. Qed.
+Print Assumptions C06_gen_div_correct.
+
+Theorem C06_gen_idiv_correct : forall a b, wfv a -> wfv b -> requiv (g_iop ODiv a b) (v_div a b).
+Proof. exact g_idiv_correct. Qed.
+Print Assumptions C06_gen_idiv_correct.
+
+(* the translated * for every pair of operand kinds that does not go through BinaryQuadraticModel.__mul__ /
+   __rmul__ / from_bqm (numbers, views, QMs; two models must both be QMs).  PARTIAL: products of models of
+   different classes or vartypes (promotion through from_bqm / __rmul__) are tied by the correspondence only *)
+Theorem C06_gen_mul_correct_partial : forall a b, no_bqm_product a b -> requiv (g_op OMul a b) (v_mul a b).
+Proof. exact g_mul_correct_partial. Qed.
+Print Assumptions C06_gen_mul_correct_partial.
+
+Theorem C06_gen_imul_number_correct :
+  forall c t p k, requiv (g_iop OMul (VMdl (mkM c t p)) (VNum k)) (v_mul (VMdl (mkM c t p)) (VNum k)).
+Proof. exact g_imul_number_correct. Qed.
+Print Assumptions C06_gen_imul_number_correct.
+
+(* two BQMs of one vartype (the double loop of BinaryQuadraticModel.__mul__ with its equal-label table), for a
+   left operand whose linear terms range over its own variables - true of every real BQM *)
+Theorem C06_gen_mul_bqm_bqm_correct :
+  forall v tx px ty py, bqm_terms_ok v tx px ->
+    g_op OMul (VMdl (mkM (CBqm v) tx px)) (VMdl (mkM (CBqm v) ty py)) =
+    v_mul (VMdl (mkM (CBqm v) tx px)) (VMdl (mkM (CBqm v) ty py)).
+Proof. exact g_mul_bqm_bqm_correct. Qed.
+Print Assumptions C06_gen_mul_bqm_bqm_correct.
+
+(* qm *= qm: __imul__ declines, Python falls back to __mul__ *)
+Theorem C06_gen_imul_qm_qm_correct :
+  forall tx px ty py,
+    g_iop OMul (VMdl (mkM CQm tx px)) (VMdl (mkM CQm ty py)) = v_mul (VMdl (mkM CQm tx px)) (VMdl (mkM CQm ty py)).
+Proof. exact g_imul_qm_qm_correct. Qed.
+Print Assumptions C06_gen_imul_qm_qm_correct.
+
+(* the translated ** of a QM: only the power 2, only of a linear model, then the product with itself.
+   PARTIAL: ** of a BQM is tied by the correspondence only *)
+Theorem C06_gen_pow_qm_correct : forall t p n, g_pow (VMdl (mkM CQm t p)) n = v_pow (VMdl (mkM CQm t p)) n.
+Proof. exact g_pow_qm_correct. Qed.
+Print Assumptions C06_gen_pow_qm_correct.
 
 (* ---- add_variable on an existing label (the merge step of QM.__mul__), as read from
    cyqm_template.pyx.pxi by translators/qm_addvar.py (Gen/Gen_AddVar.v) ---- *)
